@@ -48,3 +48,26 @@ Example c18_nonvacuous :
                 [SPush; SDeq 0; SLateEnq; SFin 1; SPush; SDeq 1; SFin 0; SFin 1; SDeq 0; SFin 0; SDeq 1; SDeq 0; SFin 0; SDeq 0] in
   all_exited s = true /\ sdecoded s = [7; 3; 2; 1; 9].
 Proof. vm_compute. split; reflexivity. Qed.
+
+(* Stop waits for the readers too (one wait group).  Counting the datagrams readers still hold, EVERY action of Stop,
+   the workers and the readers that changes the state lowers a natural-number measure, and a reader that holds a
+   datagram can always leave through quit: Stop returns under any scheduler, whatever the queue size and mode *)
+Theorem c18_stop_measure_with_readers : forall cap s a,
+  sstep cap s a = s \/ smeasure2 (sstep cap s a) < smeasure2 s.
+Proof. exact measure2_decreases. Qed.
+Print Assumptions c18_stop_measure_with_readers.
+
+Theorem c18_reader_can_leave : forall cap s, late s <> [] -> sstep cap s SLateLeave <> s.
+Proof. exact reader_can_leave. Qed.
+Print Assumptions c18_reader_can_leave.
+
+(* what the way out through quit is for: with readers that do a plain send after quit closed (the variant of seed
+   C18-5), one busy worker and three readers holding datagrams reach a state in which every worker has exited, a
+   reader still holds a datagram, and NO action is enabled -- Stop waits for that reader for ever *)
+Example c18_plain_send_refuted :
+  let s := fold_left (sstep_plain_send 0) [SLateEnq; SFin 0; SDeq 0; SPush; SFin 0; SDeq 0; SLateEnq]
+                     (sinit [] [WBusy 9] [1; 2; 3]) in
+  all_exited s = true /\ late s = [3] /\
+  sstep_plain_send 0 s SPush = s /\ sstep_plain_send 0 s (SDeq 0) = s /\ sstep_plain_send 0 s (SFin 0) = s /\
+  sstep_plain_send 0 s SLateEnq = s /\ sstep_plain_send 0 s SLateLeave = s.
+Proof. vm_compute. repeat split. Qed.
